@@ -294,7 +294,8 @@ func (s *Scalar) CSelect(cond uint64, u, v *Scalar) error {
 		return errParamNilScalar
 	}
 
-	scalar.CMove(&s.S, cond, &u.S, &v.S)
+	// Normalise the condition to 0/1: the underlying select builds its mask from a single bit.
+	scalar.CMove(&s.S, scalar.IsNonZero(cond), &u.S, &v.S)
 
 	return nil
 }
